@@ -18,7 +18,7 @@ confirmed by me in a scratch worktree (demo passes without / fails with the chan
 suite passes with it) and is kept under `seeded/<id>/` (`patch.diff`, `demo.rs`, `meta.json` with
 the confirmation log). None is ever committed to `/repo`; to run the checks against one:
 `git -C /repo apply seeded/<id>/patch.diff; tools/bv check Cxx; git -C /repo checkout -- .`.
-After the later `fix:` commits six patches no longer applied and were re-based (same change, same
+After later `fix:` commits touched the same lines, a number of patches no longer applied and were re-based (same change, same
 demo, confirmed again; `meta.json: ported`). "concrete" = the check prints a VIOLATION with a
 failing history as replay; "correspondence" = the check prints VIOLATION … no-failing-input-found
 naming the correspondence difference. Where a change was first missed, the generator /
